@@ -48,8 +48,41 @@ def to_samples(x, fs, tfull):
     return s, bool(ok)
 
 
+def _has_marker(l):
+    return l.get_marker() not in (None, 'None', '', ' ')
+
+
+def _no_line(l):
+    return l.get_linestyle() in ('None', '', ' ', None)
+
+
 def marker_lines(ax):
-    return [l for l in ax.lines if l.get_marker() == 'o' and l.get_linestyle() in ('None', '', ' ')]
+    """Marker-only artists in creation order: Line2D with a marker and no connecting line (any marker shape / colour), then scatter
+    collections.  Returns a list of (xdata, ydata)."""
+    out = [(np.asarray(l.get_xdata(orig=True), dtype=float), np.asarray(l.get_ydata(orig=True), dtype=float)) for l in ax.lines if _has_marker(l) and _no_line(l)]
+    for col in ax.collections:
+        off = np.asarray(col.get_offsets(), dtype=float)
+        if off.ndim == 2 and off.shape[1] == 2 and type(col).__name__ == 'PathCollection':
+            out.append((off[:, 0], off[:, 1]))
+    return out
+
+
+def panel_lines(ax, thr):
+    """(parameter vertices x, y), (threshold line y) of a parameter panel, whatever line styles are used: the threshold line is the
+    two-point (or constant) line without markers whose y equals the threshold; the parameter line is the other one."""
+    cands = [l for l in ax.lines]
+    thr_l = None
+    for l in cands:
+        y = np.asarray(l.get_ydata(orig=True), dtype=float)
+        if len(y) >= 2 and not _has_marker(l) and np.all(y == y[0]) and y[0] == thr:
+            thr_l = l
+            break
+    if thr_l is None:
+        dashed = [l for l in cands if l.get_linestyle() in ('--', ':', '-.') and not _has_marker(l)]
+        thr_l = dashed[0] if dashed else None
+    rest = [l for l in cands if l is not thr_l]
+    par = max(rest, key=lambda l: (1 if _has_marker(l) else 0, len(l.get_xdata()))) if rest else None
+    return par, thr_l
 
 
 def record_plot(op, df, sig, fs, thr, a, b, flags):
@@ -68,7 +101,7 @@ def record_plot(op, df, sig, fs, thr, a, b, flags):
     pcols = [k.replace('_threshold', '') for k in thr if k != 'min_n_cycles'] if op in ('summary', 'object', 'param') else []
     pcols = [c for c in pcols if c in df.columns]
     case = {'op': op, 'n': int(n), 'a': -1 if a is None else int(a), 'b': -1 if b is None else int(b), 'peakC': bool(peakC),
-            't': table_rows(df, pcols), 'raised': '', 'interp': bool(flags.get('interp', True)), 'has_burst': False, 'H': [], 'Hy': [], 'panels': [],
+            't': table_rows(df, pcols), 'raised': '', 'interp': bool(flags.get('interp', True)), 'has_burst': False, 'H': [], 'Hy': [], 'panels': [], 'marker_union': False,
             'markers': {k: {'shown': False, 'samples': [], 'y': [], 'on_grid': True} for k in KINDS}, 'sig': []}
     plotted = np.asarray(sig, dtype=float)
     drawn_sig = None
@@ -109,13 +142,14 @@ def record_plot(op, df, sig, fs, thr, a, b, flags):
             fig = plt.gcf()
             axes = fig.axes
             ax0 = axes[0]
-            sl = [l for l in ax0.lines if l.get_linestyle() == '-' and l.get_marker() in ('None', None, '') and l.get_label() != 'Bursts']
+            sl = [l for l in ax0.lines if not _no_line(l) and not _has_marker(l) and not np.ma.is_masked(l.get_ydata(orig=True)) and len(l.get_xdata()) > 2]
+            sl.sort(key=lambda l: (l.get_label() != 'Signal', -len(l.get_xdata())))
             if sl and op != 'param':
                 y_ = np.ma.filled(np.ma.asarray(sl[0].get_ydata(orig=True), dtype=float), np.nan)
                 xs_, okg_ = to_samples(sl[0].get_xdata(orig=True), fs, tfull)
                 drawn_sig = (xs_, list(y_), okg_)
             if op in ('summary', 'object'):
-                burst_line = [l for l in ax0.lines if l.get_label() == 'Bursts']
+                burst_line = [l for l in ax0.lines if l.get_label() == 'Bursts'] or [l for l in ax0.lines if not _no_line(l) and np.ma.is_masked(l.get_ydata(orig=True))]
                 if burst_line:
                     y = burst_line[0].get_ydata(orig=True)
                     x = burst_line[0].get_xdata(orig=True)
@@ -130,28 +164,35 @@ def record_plot(op, df, sig, fs, thr, a, b, flags):
                     pcols = []
                 for pi_, col in enumerate(pcols):
                     axp = axes[pi_ + 1]
-                    pl = [l for l in axp.lines if l.get_linestyle() == '-']
-                    tl = [l for l in axp.lines if l.get_linestyle() == '--']
+                    par_l, thr_l = panel_lines(axp, thr[col + '_threshold'])
+                    pl, tl = ([par_l] if par_l is not None else []), ([thr_l] if thr_l is not None else [])
                     xs, okg = to_samples(pl[0].get_xdata(orig=True), fs, tfull) if pl else ([], False)
                     ys = [pj.limbs(v) for v in (pl[0].get_ydata(orig=True) if pl else [])]
                     case['panels'].append({'col': col, 'verts': [[s_, y_] for s_, y_ in zip(xs, ys)] if okg else [[-5, [0, 0, 0]]],
-                                           'thr_line': [pj.limbs(v) for v in (tl[0].get_ydata(orig=True) if tl else [])],
+                                           'thr_line': [pj.limbs(v) for v in (list(tl[0].get_ydata(orig=True))[:1] + list(tl[0].get_ydata(orig=True))[-1:] if tl else [])],
                                            'thr': [pj.limbs(thr[col + '_threshold'])] * 2})
             elif op == 'param':
-                pl = [l for l in ax0.lines if l.get_linestyle() == '-']
-                tl = [l for l in ax0.lines if l.get_linestyle() == '--']
+                par_l, thr_l = panel_lines(ax0, thr[pcols[0] + '_threshold'])
+                pl, tl = ([par_l] if par_l is not None else []), ([thr_l] if thr_l is not None else [])
                 xs, okg = to_samples(pl[0].get_xdata(orig=True), fs, tfull) if pl else ([], False)
                 ys = [pj.limbs(v) for v in (pl[0].get_ydata(orig=True) if pl else [])]
                 case['panels'].append({'col': pcols[0], 'verts': [[s_, y_] for s_, y_ in zip(xs, ys)] if okg else [[-5, [0, 0, 0]]],
-                                       'thr_line': [pj.limbs(v) for v in (tl[0].get_ydata(orig=True) if tl else [])],
+                                       'thr_line': [pj.limbs(v) for v in (list(tl[0].get_ydata(orig=True))[:1] + list(tl[0].get_ydata(orig=True))[-1:] if tl else [])],
                                        'thr': [pj.limbs(thr[pcols[0] + '_threshold'])] * 2})
             if op != 'param':
                 ml = marker_lines(ax0)
-                for kind, line in zip(shown, ml):
-                    xs, okg = to_samples(line.get_xdata(orig=True), fs, tfull)
-                    case['markers'][kind] = {'shown': True, 'samples': xs if okg else [], 'y': [pj.limbs(v) for v in line.get_ydata(orig=True)] if okg else [], 'on_grid': okg}
-                for kind in shown[len(ml):]:
-                    case['markers'][kind]['shown'] = True
+                if len(ml) == len(shown):
+                    for kind, (mx, my) in zip(shown, ml):
+                        xs, okg = to_samples(mx, fs, tfull)
+                        case['markers'][kind] = {'shown': True, 'samples': xs if okg else [], 'y': [pj.limbs(v) for v in my] if okg else [], 'on_grid': okg}
+                else:
+                    # another number of marker artists than kinds (e.g. one scatter call for everything): every kind is judged on the union
+                    allx = np.concatenate([m[0] for m in ml]) if ml else np.array([])
+                    ally = np.concatenate([m[1] for m in ml]) if ml else np.array([])
+                    xs, okg = to_samples(allx, fs, tfull)
+                    case['marker_union'] = True
+                    for kind in shown:
+                        case['markers'][kind] = {'shown': True, 'samples': xs if okg else [], 'y': [pj.limbs(v) for v in ally] if okg else [], 'on_grid': okg}
     except Exception as ex:
         case['raised'] = type(ex).__name__ + ':' + str(ex)[:70]
     finally:
